@@ -9,7 +9,7 @@ import sys
 ROOT = os.path.join(os.path.dirname(os.path.dirname(os.path.abspath(__file__))), "coq", "theories")
 
 
-STANDALONE = {"AckProofs", "LocksProofs", "LedgerProofs", "LedgerUpdProofs", "PoolProofs", "WindowProofs", "MicroProofs", "MicroStats", "MicroBound", "MicroBal", "MicroAll", "MicroProv", "MicroLedger", "MicroFifo", "PrecondProofs"}
+STANDALONE = {"AckProofs", "LocksProofs", "LedgerProofs", "LedgerUpdProofs", "PoolProofs", "WindowProofs", "MicroProofs", "MicroStats", "MicroBound", "MicroBal", "MicroAll", "MicroProv", "MicroLedger", "MicroFifo", "MicroAck", "PrecondProofs"}
 
 
 def statements(modname):
@@ -101,7 +101,8 @@ spec("C04_micro", "Delete split at its schedule points: the mark hides the key u
     ("MicroAll", "micro_hidden_all", None), ("MicroAll", "micro_hidden_run", None),
     (M, "micro_soft_deleted_stays_hidden", None), (M, "mcall_atomic", None), (M, "mdelete_atomic", None),
 ])
-spec("C13_micro", "shutdown() split into its stages: the flag is final and refuses every call that begins after it", [M, "MicroBal", "MicroAll"], [
+spec("C13_micro", "shutdown() split into its stages: the flag is final and refuses every call that begins after it; acknowledgements at every micro state", [M, "MicroBal", "MicroAll", "MicroAck"], [
+    ("MicroAck", "micro_draining_no_pending_all", None), ("MicroAck", "micro_ack_pending_iff_all", None),
     ("MicroAll", "micro_shut_stable_all", None), (M, "micro_shut_stable", None), (M, "micro_after_flag_refused", None), (M, "mcall_atomic", "shutdown_stages_compose"),
 ])
 spec("C07_micro", "put split at its schedule points: the race between two puts of one key", [M], [
@@ -128,8 +129,9 @@ spec("C15_micro", "Hit accounting with reads split between the store lookup and 
 spec("C02_micro", "Reads split at their schedule points", [M, "MicroBal", "MicroAll", "MicroProv"], [
     ("MicroProv", "micro_store_value_provenance", None), (M, "mcall_atomic", None), ("MicroAll", "micro_hidden_run", "deleted_value_never_returned_micro"),
 ])
-spec("C11_micro", "Writes split between building the command and sending it; the queue at every micro step", [M, "MicroFifo"], [
-    ("MicroFifo", "micro_queue_fifo_all", None), ("MicroFifo", "micro_worker_one_at_a_time", None), (M, "mcall_atomic", None), (M, "mdelete_atomic", None), (M, "mput_atomic", None), (M, "micro_schedule_refines", None),
+spec("C11_micro", "Writes split between building the command and sending it; the queue at every micro step", [M, "MicroFifo", "MicroAck"], [
+    ("MicroFifo", "micro_queue_fifo_all", None), ("MicroFifo", "micro_worker_one_at_a_time", None),
+    ("MicroAck", "micro_ack_ids_unique_all", None), ("MicroAck", "micro_ack_pending_iff_all", None), (M, "mcall_atomic", None), (M, "mdelete_atomic", None), (M, "mput_atomic", None), (M, "micro_schedule_refines", None),
 ])
 spec("C01", "Total weight never exceeds the configured cache weight", [I, A], [
     (A, "used_bounded_step", None), (A, "used_bounded_run", None), (I, "used_nonneg", None),
